@@ -111,11 +111,15 @@ def build_tool(snap, hooks=True, sanitize=False, name='snapraid'):
     if hooks:
         cflags.append('-D' + GUARD)
     cc = 'gcc'
+    cov = os.environ.get('VERIF_COVERAGE') and not sanitize
+    if cov:
+        # development aid (harness/py/coverage.py): line coverage of the real tool under a check, to aim the generators
+        cflags = ['-O0', '-g', '--coverage'] + cflags[2:]
     if sanitize:
         cflags += ['-fsanitize=address,undefined', '-fno-sanitize-recover=undefined', '-fno-omit-frame-pointer']
     objs = _compile_many(snap, TOOL_SRCS, os.path.join(snap, '.obj_' + name), cflags, cc)
     out = os.path.join(snap, name)
-    ld = [cc, '-pthread', '-rdynamic'] + (['-fsanitize=address,undefined'] if sanitize else []) + objs + ['-o', out, '-lblkid', '-lm']
+    ld = [cc, '-pthread', '-rdynamic'] + (['-fsanitize=address,undefined'] if sanitize else []) + (['--coverage'] if cov else []) + objs + ['-o', out, '-lblkid', '-lm']
     r = run(ld, cwd=snap)
     if r.returncode != 0:
         raise BuildError(r.stdout)
@@ -352,7 +356,7 @@ class Check:
               'violations': len(self.violations), 'notes': self.notes + ([self.level_note] if self.level_note else []),
               'known_findings_reported': [k for k, _ in self.known]}
         # evidence/ only ever describes runs against /repo itself; runs against a scratch copy (seeded changes) go elsewhere
-        evdir = os.path.join(VERIF, 'evidence') if os.path.realpath(REPO) == '/repo' else os.path.join(VERIF, 'replays', 'scratch_evidence')
+        evdir = os.path.join(VERIF, 'evidence') if (os.path.realpath(REPO) == '/repo' and not os.environ.get('VERIF_COVERAGE')) else os.path.join(VERIF, 'replays', 'scratch_evidence')
         ev['repo'] = REPO
         os.makedirs(evdir, exist_ok=True)
         with open(os.path.join(evdir, '%s.json' % self.prop), 'w') as f:
